@@ -24,20 +24,58 @@ Definition amap_eqb (a b : amap) : bool :=
 Definition CASE_MAX : nat := 3000.
 Definition TRACE_FUEL : nat := 60.
 
+(* ---------- compact encodings used by the case files (parsing numerals dominates coqc time) ----------
+   * a location set is a bit mask over `locations f` (bit j = j-th location of Function::locations);
+   * a result map is the list, in `locations f` order, of the masks of its values, -1 = key absent;
+   * the initial memory is a 48-byte arena at 0x1000 filled from a seed;
+   * initial environments are value lists over a scalar pool. *)
+Fixpoint mask_set (locs : list floc) (j : Z) (mask : Z) : list floc :=
+  match locs with
+  | [] => []
+  | l :: t => if Z.testbit mask j then l :: mask_set t (j + 1) mask else mask_set t (j + 1) mask
+  end.
+Fixpoint decode_map (all : list floc) (locs : list floc) (masks : list Z) : option amap :=
+  match locs, masks with
+  | [], [] => Some []
+  | l :: lt, z :: zt =>
+      match decode_map all lt zt with
+      | None => None
+      | Some r => if z <? 0 then Some r
+                  else if z <? 2 ^ Z.of_nat (length all) then Some ((l, mask_set all 0 z) :: r) else None
+      end
+  | _, _ => None
+  end.
+Definition decode (f : func) (o : res (list Z)) : option (res amap) :=
+  match o with
+  | Ok masks => match decode_map (locations f) (locations f) masks with Some m => Some (Ok m) | None => None end
+  | Err e => Some (Err e)
+  | Panic => Some Panic
+  end.
+
+Definition arena (seed : Z) : list (Z * Z) :=
+  List.map (fun i => (4096 + Z.of_nat i, ((seed + Z.of_nat i) * 2654435761 / 65536) mod 256)) (seq 0 48).
+Definition mk_env (pool : list (N * Z)) (vals : list Z) : senv :=
+  List.map (fun pv : (N * Z) * Z => ((fst (fst pv), None), mkc (snd (fst pv)) (snd pv))) (combine pool vals).
+
 Inductive case :=
-| K (f : func) (big : bool) (mem : list (Z * Z)) (envs : list senv)
-    (rd ud du : res amap).
+| K (f : func) (big : bool) (seed : Z) (pool : list (N * Z)) (vals : list (list Z))
+    (rd ud du : res (list Z)).
 
 Definition ck (k : case) : bool * bool :=
   match k with
-  | K f big mem envs rd ud du =>
-      (res_eqb amap_eqb (reaching_definitions_max CASE_MAX f) rd &&
-       res_eqb amap_eqb (use_def_max CASE_MAX f) ud &&
-       res_eqb amap_eqb (def_use_max CASE_MAX f) du,
-       match rd, ud, du with
-       | Ok rdm, Ok udm, Ok dum =>
-           c12_oracle f TRACE_FUEL (List.map (fun en => mkst en (mkbmem big mem)) envs) rdm udm dum
-       | Panic, _, _ | _, Panic, _ | _, _, Panic => false   (* the analyses are total on IL functions with an entry *)
-       | _, _, _ => match g_entry (f_cfg f) with None => true | Some _ => false end
-       end)
+  | K f big seed pool vals rd ud du =>
+      match decode f rd, decode f ud, decode f du with
+      | Some rd, Some ud, Some du =>
+        (res_eqb amap_eqb (reaching_definitions_max CASE_MAX f) rd &&
+         res_eqb amap_eqb (use_def_max CASE_MAX f) ud &&
+         res_eqb amap_eqb (def_use_max CASE_MAX f) du,
+         match rd, ud, du with
+         | Ok rdm, Ok udm, Ok dum =>
+             c12_oracle f TRACE_FUEL
+                        (List.map (fun v => mkst (mk_env pool v) (mkbmem big (arena seed))) vals) rdm udm dum
+         | Panic, _, _ | _, Panic, _ | _, _, Panic => false   (* the analyses are total on IL functions with an entry *)
+         | _, _, _ => match g_entry (f_cfg f) with None => true | Some _ => false end
+         end)
+      | _, _, _ => (false, false)     (* a key or element that is not a location of the function *)
+      end
   end.
